@@ -11,6 +11,7 @@ import (
 	"math/rand"
 	"net"
 	"os"
+	"strings"
 	"sync"
 	"sync/atomic"
 	"syscall"
@@ -161,14 +162,14 @@ func (cm *connManager) handleNewTCPConn(regManager *cj.RegistrationManager, clie
 	var err error
 	cc, err = regManager.GetGeoIP().CC(remoteIP)
 	if err != nil {
-		logger.Errorln("Failed to get CC:", err)
+		logger.Errorln("Failed to get CC:", scrubAddr(err, remoteIP))
 		return
 	}
 	if cc != "unk" {
 		// logger.Infoln("CC not unk:", cc, "ASN:", asn) // TESTING
 		asn, err = regManager.GetGeoIP().ASN(remoteIP)
 		if err != nil {
-			logger.Errorln("Failed to get ASN:", err)
+			logger.Errorln("Failed to get ASN:", scrubAddr(err, remoteIP))
 			return
 		}
 	}
@@ -1585,6 +1586,15 @@ func (c *connStats) discardToClose(asn uint, cc string, isIPv4 bool) {
 			atomic.AddInt64(&c.v6geoIPMap[asn].numResolved, 1)
 		}
 	}
+}
+
+// scrubAddr removes the textual form of ip from err unless logging of client addresses is enabled.
+// GeoIP lookup errors quote the address that was looked up, which is the client's.
+func scrubAddr(err error, ip net.IP) error {
+	if err == nil || ip == nil || logClientIP {
+		return err
+	}
+	return errors.New(strings.ReplaceAll(err.Error(), ip.String(), "_"))
 }
 
 func isValidCC(cc string) bool {
